@@ -28,6 +28,12 @@ def programs(tier, seed):
     ps.append(("tuple_input_mul", prog([inp(tp), inp(S("u64")), nd("TupleGet", [1], i=0), nd("TupleGet", [1], i=1), nd("Multiply", [3, 4]), nd("Multiply", [5, 2])]), [tp, S("u64")]))
     nt = {"k": "n", "nm": ["a", "b"], "el": [A("i64", [3]), A("i64", [3])]}
     ps.append(("named_input_dot", prog([inp(nt), nd("NamedTupleGet", [1], key="a"), nd("NamedTupleGet", [1], key="b"), nd("Dot", [2, 3])]), [nt]))
+    # one-element products: an output party learns x*y only, so two input vectors with the same product (x = 0) are one class for it
+    ps.append(("prod_gemm_11_i64", prog([inp(A("i64", [1, 1])), inp(A("i64", [1, 1])), nd("Gemm", [1, 2], ta=False, tb=True)]), [A("i64", [1, 1]), A("i64", [1, 1])]))
+    ps.append(("prod_gemm_11_b", prog([inp(A("b", [1, 1])), inp(A("b", [1, 1])), nd("Gemm", [1, 2], ta=False, tb=True)]), [A("b", [1, 1]), A("b", [1, 1])]))
+    ps.append(("prod_matmul_11_u64", prog([inp(A("u64", [1, 1])), inp(A("u64", [1, 1])), nd("Matmul", [1, 2])]), [A("u64", [1, 1]), A("u64", [1, 1])]))
+    ps.append(("prod_dot_1_i32", prog([inp(A("i32", [1])), inp(A("i32", [1])), nd("Dot", [1, 2])]), [A("i32", [1]), A("i32", [1])]))
+    ps.append(("prod_mul_scalar_u64", prog([inp(S("u64")), inp(S("u64")), nd("Multiply", [1, 2])]), [S("u64"), S("u64")]))
     ps.append(("mixmul_direct", prog([inp(A("i64", [3])), inp(A("b", [3])), nd("MixedMultiply", [1, 2])]), [A("i64", [3]), A("b", [3])]))
     return ps
 
@@ -94,7 +100,7 @@ def jobs(tier, seed):
     # observers that DO receive the output: only for programs whose result forgets much of the hidden inputs (comparisons,
     # min / max, truncation, multiplexer, products with bits), so that a second input vector with the same result can be
     # found among random candidates (the harness picks the first candidate whose plaintext result is the same)
-    forgetful = ("GreaterThan", "LessThanEqualTo", "Equal", "Min", "Max", "trunc2k", "truncgen", "mux_", "mixmul", "clip2k", "long_division", "not_or")
+    forgetful = ("GreaterThan", "LessThanEqualTo", "Equal", "Min", "Max", "trunc2k", "truncgen", "mux_", "mixmul", "clip2k", "long_division", "not_or", "prod_")
     for name, p, its, fam in plist:
         if not name.startswith(forgetful):
             continue
